@@ -211,6 +211,39 @@ def apalache(module, wd, args, timeout=600, expect_error=False):
     return {"wall": time.time() - t0, "ok": ok}
 
 
+def tlaps(modules, main, wd, timeout=600, mutate=None):
+    """Deductive check with the TLA+ proof system.  `mutate` = (file, old, new): negative control - the same proof over a
+    deliberately wrong specification must NOT go through.  Failure is a tool error, never a verdict about the code."""
+    t0 = time.time()
+    d = os.path.join(wd, "tlaps_neg" if mutate else "tlaps")
+    shutil.rmtree(d, ignore_errors=True)
+    os.makedirs(d)
+    for m in modules:
+        text = open(os.path.join(SPEC, m)).read()
+        if mutate and mutate[0] == m:
+            if mutate[1] not in text:
+                raise ToolError("tlaps negative control: text to mutate not found in %s" % m)
+            text = text.replace(mutate[1], mutate[2])
+        with open(os.path.join(d, m), "w") as f:
+            f.write(text)
+    p = subprocess.run(["timeout", str(timeout), "tlapm", "--threads", "6", "--cleanfp", main], cwd=d,
+                       stdout=subprocess.PIPE, stderr=subprocess.STDOUT, text=True)
+    m = re.search(r"All (\d+) obligations? proved", p.stdout)
+    shutil.rmtree(d, ignore_errors=True)
+    if p.returncode == 124:
+        raise ToolError("tlapm %s timed out" % main)
+    if mutate:
+        if m:
+            raise ToolError("tlapm %s: the proof still goes through over a wrong specification (negative control)" % main)
+        log("[S1] tlapm %s over a mutated %s: proof fails as it must, %.1fs" % (main, mutate[0], time.time() - t0))
+        return {"wall": time.time() - t0, "obligations": 0}
+    if not m:
+        log(p.stdout[-3000:])
+        raise ToolError("tlapm %s: not all obligations proved" % main)
+    log("[S1] tlapm %s: all %s obligations proved, %.1fs" % (main, m.group(1), time.time() - t0))
+    return {"wall": time.time() - t0, "obligations": int(m.group(1))}
+
+
 RE_VERDICT = re.compile(r'@@VERDICT\|([A-Z]+)\|(.*)\|(\d+)"?\s*$')
 RE_ACCEPT = re.compile(r'@@ACCEPT\|(\d+)\|(\d+)')
 
